@@ -173,7 +173,7 @@ class Ref:
 
     def snapshot(self, R):
         snap = {}
-        for rev, k, v in sorted(self.writes):
+        for rev, k, v in sorted(self.writes, key=lambda w: (w[0], w[1])):
             if rev <= R:
                 if v is None:
                     snap.pop(k, None)
